@@ -38,7 +38,7 @@ func main() {
 	r.Assume("Blur-like operations whose floating point summation order follows map iteration are executed for the race detector but not compared bit-exactly")
 
 	ws := workloads()
-	reps := r.N(18, 120)
+	reps := r.N(12, 120)
 	type job struct {
 		w    workload
 		rep  int
